@@ -72,7 +72,12 @@ def run_batch(exe, prop, base, start, count, env=None):
 def gen_plan(exe, prop, seed):
     r = subprocess.run([exe, "gen", prop, str(seed)], capture_output=True,
                        text=True)
-    return json.loads(r.stdout)
+    try:
+        return json.loads(r.stdout)
+    except json.JSONDecodeError:
+        log("gen %s %s failed: rc=%s out=%r err=%r" % (
+            prop, seed, r.returncode, r.stdout[:300], r.stderr[-800:]))
+        raise
 
 
 def run_plan(exe, plan, keep=False, dump=False):
